@@ -786,7 +786,7 @@ class Collection(object):
                                 if '$each' in value:
                                     # append the list to the field
                                     existing_document[field] += _values_to_add_to_set(
-                                        existing_document[field], list(value['$each']))
+                                        existing_document[field], _each_of_add_to_set(value))
                                     continue
                             if value not in existing_document[field]:
                                 existing_document[field].append(value)
@@ -816,7 +816,7 @@ class Collection(object):
 
                             if isinstance(value, dict) and '$each' in value:
                                 push_results += _values_to_add_to_set(
-                                    push_results, list(value['$each']))
+                                    push_results, _each_of_add_to_set(value))
                             elif value not in push_results:
                                 push_results.append(value)
 
@@ -2298,6 +2298,15 @@ def _pop_from_list(list_instance, mongo_pop_value):
         list_instance.pop()
     elif mongo_pop_value == -1:
         list_instance.pop(0)
+
+
+def _each_of_add_to_set(value):
+    """The values of {'$each': values}: unlike $push, $addToSet takes no clause next to $each."""
+    unused_modifiers = [key for key in value if key != '$each']
+    if unused_modifiers:
+        raise WriteError(
+            'Found unexpected fields after $each in $addToSet: %s' % unused_modifiers[0])
+    return list(value['$each'])
 
 
 def _values_to_add_to_set(existing, values):
